@@ -119,6 +119,9 @@ def run_pairs(ctx, name, alphabet, max_len, costs, tag):
     return res
 
 
+FORMS = [('list', list), ('tuple', tuple), ('iterator', iter), ('generator', lambda p: (x for x in p))]
+
+
 def aggregate_check(ctx):
     core.setup_repo_path()
     from pero_ocr import error_summary as es
@@ -137,7 +140,10 @@ def aggregate_check(ctx):
     for k in (0, 1, 2, 3):
         for combo in itertools.islice(itertools.combinations(range(len(sums)), k), 400):
             part = [sums[i] for i in combo]
-            agg = es.ErrorsSummary.aggregate(part)
+            # the summaries are handed over as a list, a tuple, an iterator or a generator in turn (any iterable is a legal
+            # argument: the function needs one pass)
+            form = FORMS[n % len(FORMS)]
+            agg = es.ErrorsSummary.aggregate(form[1](part))
             n += 1
             want = tuple(sum(getattr(s, f) for s in part) for f in
                          ('nb_lines_summarized', 'ref_len', 'nb_errors', 'nb_subs', 'nb_inss', 'nb_dels'))
@@ -154,11 +160,11 @@ def aggregate_check(ctx):
             if got != want or not conf_ok:
                 fails.append(Failure(sig('rt', 'ErrorsSummary.aggregate', 'aggregation-is-addition'),
                                      'aggregate of %d summaries is not the sum' % k, function='ErrorsSummary.aggregate',
-                                     input={'combo': list(combo)}, observed=repr(got), expected=repr(want),
+                                     input={'combo': list(combo), 'given_as': form[0]}, observed=repr(got), expected=repr(want),
                                      clause='aggregation-is-addition'))
             if len(samples) < 2 and k == 2:
                 samples.append({'summaries': [str(p) for p in part], 'aggregate': str(agg)})
-    ctx.add_bounded('aggregate', 'all subsets of size <= 3 (first 400 per size) of the 49 summaries of pairs over {a,b}^<=2',
+    ctx.add_bounded('aggregate', 'all subsets of size <= 3 (first 400 per size) of the 49 summaries of pairs over {a,b}^<=2, given as list / tuple / iterator / generator in turn',
                     n, max(n - 1, 0), False, samples, fails[:1], rule='subsets of line summaries; non-trivial = non-empty subset',
                     clause='aggregating summaries is plain addition')
 
@@ -209,6 +215,15 @@ def replay(entry):
     from pero_ocr import sequence_alignment as sa
     from pero_ocr import error_summary as es
     inp = entry.get('input') or {}
+    if 'combo' in inp:
+        ss = seqs('ab', 2)
+        sums = [es.ErrorsSummary.from_lists(a, b) for a in ss for b in ss]
+        part = [sums[i] for i in inp['combo']]
+        agg = es.ErrorsSummary.aggregate(dict(FORMS)[inp.get('given_as', 'list')](part))
+        fields = ('nb_lines_summarized', 'ref_len', 'nb_errors', 'nb_subs', 'nb_inss', 'nb_dels')
+        got, want = tuple(getattr(agg, f) for f in fields), tuple(sum(getattr(x, f) for x in part) for f in fields)
+        print('replay: aggregate of summaries %r given as a %s: totals %r, sums %r' % (inp['combo'], inp.get('given_as', 'list'), got, want))
+        return 1 if got != want else 0
     if 'source' not in inp:
         print('replay: obligation %s has no concrete input; solver output:\n%s' % (entry.get('obligation'), entry.get('solver_output')))
         return 1
